@@ -173,7 +173,7 @@ def quotient_form(repo: Repo, f: Func, e: ast.expr) -> t.Optional[t.Tuple[str, i
     t = time.time_ns() // 100 + EPOCH.  The algebra: with Q(D, M) = floor(t / D) mod M (M None: no modulus)
         t = Q(1, None);  Q(D, None) // k = Q(D k, None);  Q(D, M) // k = Q(D k, M / k) if k | M;
         Q(D, None) % m = Q(D, m);  Q(D, M) % m = Q(D, m) if m | M;  int(a / k) = math.floor(a / k) = a // k (exactness is O1);
-        divmod(a, k)[0] = a // k;  divmod(a, k)[1] = a % k.
+        divmod(a, k)[0] = a // k;  divmod(a, k)[1] = a % k;  a >> k = a // 2^k;  a & (2^k - 1) = a % 2^k.
     Anything else (offsets, rounding, other operators) is not a floor-quotient of the current time."""
     from sa.flow import tag_tree
     import copy
@@ -188,6 +188,16 @@ def quotient_form(repo: Repo, f: Func, e: ast.expr) -> t.Optional[t.Tuple[str, i
             return div(ev(x.left), const(x.right))
         if isinstance(x, ast.BinOp) and isinstance(x.op, ast.Mod):
             return mod(ev(x.left), const(x.right))
+        # bit fields of the cycle counter: a >> k = a // 2^k and a & (2^k - 1) = a % 2^k for every Python int
+        if isinstance(x, ast.BinOp) and isinstance(x.op, ast.RShift):
+            k = const(x.right)
+            return div(ev(x.left), 1 << k) if k is not None and 0 <= k < 64 else None
+        if isinstance(x, ast.BinOp) and isinstance(x.op, ast.BitAnd):
+            for a_, b_ in ((x.left, x.right), (x.right, x.left)):
+                m_ = const(b_)
+                if m_ is not None and m_ > 0 and (m_ & (m_ + 1)) == 0:
+                    return mod(ev(a_), m_ + 1)
+            return None
         if isinstance(x, ast.Call) and unparse(x.func) in ("int", "math.floor") and len(x.args) == 1 and not x.keywords:
             a = x.args[0]
             if isinstance(a, ast.BinOp) and isinstance(a.op, ast.Div):
